@@ -6,6 +6,7 @@
 //@ shim: src/debugger/debugee/dwarf/unit/mod.rs :: struct LineRow :: address: u64, file_index: u64, line: u64, column: u64, flags: u8
 //@ shim: src/debugger/debugee/dwarf/unit/mod.rs :: struct BsUnit :: lines: Vec<LineRow>
 //@ shim: src/debugger/debugee/dwarf/unit/mod.rs :: struct PlaceDescriptor :: file_idx: u64, address: GlobalAddress, line_number: u64, pos_in_unit: usize, is_stmt: bool, column_number: u64, epilog_begin: bool, end_sequence: bool, prolog_end: bool, unit: &'a BsUnit
+//@ assume: the contracts of the outlined binary-search expressions are validated (bounded: <= 4 rows) by the Kani units C04.outline.* on the verbatim expression text
 //@ assume: BsUnit.lines is sorted by address (established by `lines.sort_unstable_by_key(|x| x.address)` in DwarfUnitParser::parse; std sort contract assumed)
 //@ assume: PlaceDescriptor.file (`unit.files.get(file_index).expect(..)`) is dropped from the shim: the `expect` on a file index outside the unit's file table is NOT covered
 //@ notcovered: find_closest_place (line -> rows), one breakpoint per instantiation, the line+1 fallback, comparison with an independent DWARF reader
@@ -226,7 +227,7 @@ impl BsUnit {
 //@   ensures E_pc2: r.is_some() && (exists|k: int| 0 <= k < self.lines@.len() && #[trigger] adr(self, k) <= pc.0) ==> adr(self, r.unwrap().pos_in_unit as int) <= pc.0
 //@   ensures E_pc3: r.is_some() ==> forall|k: int| 0 <= k < self.lines@.len() && #[trigger] adr(self, k) <= pc.0 ==> adr(self, k) <= adr(self, r.unwrap().pos_in_unit as int)
 //@   outline O_u64: `u64::from(pc)` => `outline_u64_from_ga(pc)`
-//@   outline O_bsearch_prev: `self .lines .binary_search_by_key(&pc, |line| line.address) .unwrap_or_else(|p| p.saturating_sub(1))` => `self.outline_bsearch_prev(pc)`
+//@   outline O_bsearch_prev: `self .lines .binary_search_by_key($k, $f) .unwrap_or_else($g)` => `self.outline_bsearch_prev(pc)`
 //@ end
 
 //@ extract: impl BsUnit / fn find_eb
@@ -237,9 +238,9 @@ impl BsUnit {
 //@   ensures E_eb3: r.is_some() ==> forall|k: int, j: int| r.unwrap().pos_in_unit < k < j < self.lines@.len() && #[trigger] adr(self, k) < #[trigger] adr(self, j) <= pc.0 ==> !#[trigger] is_eb(self, k)
 //@   ensures E_eb4: r.is_none() ==> forall|k: int, j: int| 1 <= k < j < self.lines@.len() && #[trigger] adr(self, k) < #[trigger] adr(self, j) <= pc.0 ==> !#[trigger] is_eb(self, k)
 //@   outline O_u64: `u64::from(pc)` => `outline_u64_from_ga(pc)`
-//@   outline O_bsearch_prev: `self .lines .binary_search_by_key(&pc, |line| line.address) .unwrap_or_else(|p| p.saturating_sub(1))` => `self.outline_bsearch_prev(pc)`
+//@   outline O_bsearch_prev: `self .lines .binary_search_by_key($k, $f) .unwrap_or_else($g)` => `self.outline_bsearch_prev(pc)`
 //@   proof before `let pc = u64::from(pc);`: let ghost pc_arg = pc;
-//@   proof after `.unwrap_or_else(|p| p.saturating_sub(1));`: let ghost pos0 = pos;
+//@   proof before `while pos > 0`: let ghost pos0 = pos;
 //@   loop 0 invariant I_ebp: pc == pc_arg.0
 //@   loop 0 invariant I_eb0: wf_lines(self)
 //@   loop 0 invariant I_eb1: pos <= pos0 && (pos0 < self.lines@.len() || pos0 == 0)
@@ -256,7 +257,7 @@ impl BsUnit {
 //@   ensures E_ex2: r.is_some() ==> describes(r.unwrap(), self, r.unwrap().pos_in_unit as int) && adr(self, r.unwrap().pos_in_unit as int) == pc.0
 //@   ensures E_ex3: r.is_some() ==> forall|k: int| 0 <= k < r.unwrap().pos_in_unit ==> #[trigger] adr(self, k) != pc.0
 //@   outline O_u64: `u64::from(pc)` => `outline_u64_from_ga(pc)`
-//@   outline O_bsearch: `self.lines.binary_search_by_key(&pc, |line| line.address)` => `self.outline_bsearch(pc)`
+//@   outline O_bsearch: `self.lines.binary_search_by_key($k, $f)` => `self.outline_bsearch(pc)`
 //@   loop 0 invariant I_ex1: p < self.lines@.len() && adr(self, p as int) == pc
 //@   proof before `self.find_place_by_idx(p)`: assert(p > 0 ==> adr(self, p - 1) != pc);
 //@   loop 0 decreases: p
